@@ -182,7 +182,15 @@ type verdict struct {
 	Exp       *Expect // the expectation that was matched, or the first one when none was
 }
 
-func mismatch(r *Router, e *Expect, o *Observed) (aspect, got, detail string) {
+// mismatch judges one routing; prev is what was observed after the router's previous routing in the
+// same run (nil on the first).
+func mismatch(r *Router, e *Expect, o, prev *Observed) (aspect, got, detail string) {
+	// after leaving by the prescribed exit the run ends at the exit's node - or, when every exit's node
+	// leads back to the router (revisits), waits there for the next message
+	after, afterWhy := "completed", "run should complete after leaving by the category's exit"
+	if len(r.Revisit) > 0 {
+		after, afterWhy = "waiting", "run should be back at the router's wait after leaving by the category's exit"
+	}
 	if o.Panic != "" {
 		return "panic", mc.PanicSite(o.Panic), o.Panic
 	}
@@ -242,8 +250,8 @@ func mismatch(r *Router, e *Expect, o *Observed) (aspect, got, detail string) {
 	if o.NextDest != cat.Exit {
 		return "destination", "differs", fmt.Sprintf("next node d%d, want d%d", o.NextDest, cat.Exit)
 	}
-	if o.RunStatus != "completed" || o.SessStatus != "completed" {
-		return "status", o.RunStatus + "/" + o.SessStatus, "run should complete after leaving by the category's exit"
+	if o.RunStatus != after || o.SessStatus != after {
+		return "status", o.RunStatus + "/" + o.SessStatus, afterWhy
 	}
 	if a, g, d := wantSegs(cat.Exit, e.JudgeInput && r.Type == "switch" && e.Via != "timeout", e.Input); a != "" {
 		return a, g, d
@@ -261,12 +269,16 @@ func mismatch(r *Router, e *Expect, o *Observed) (aspect, got, detail string) {
 		if e.JudgeInput && o.ResInput != e.Input {
 			return "result-input", "differs", fmt.Sprintf("result input %q, want %q", o.ResInput, e.Input)
 		}
-		if len(o.EvResults) != 1 {
+		// a routing that saves the value and category the result already had changes nothing an event
+		// would have to announce: then the statement is satisfied with or without an event
+		unchanged := prev != nil && prev.HasResult && prev.ResCat == o.ResCat && prev.ResValue == o.ResValue
+		if len(o.EvResults) != 1 && !(unchanged && len(o.EvResults) == 0) {
 			return "result-event", fmt.Sprintf("%d-events", len(o.EvResults)), "want exactly one run_result_changed for the router's result"
 		}
-		ev := o.EvResults[0]
-		if ev.Category != cat.Name || (e.JudgeValue && ev.Value != e.Value) {
-			return "result-event", "differs", fmt.Sprintf("run_result_changed category=%q value=%q, want %q %q", ev.Category, ev.Value, cat.Name, e.Value)
+		for _, ev := range o.EvResults {
+			if ev.Category != cat.Name || (e.JudgeValue && ev.Value != e.Value) {
+				return "result-event", "differs", fmt.Sprintf("run_result_changed category=%q value=%q, want %q %q", ev.Category, ev.Value, cat.Name, e.Value)
+			}
 		}
 	}
 	return "", "", ""
@@ -338,14 +350,14 @@ func uniq(xs []string) []string {
 }
 
 // Judge compares what the engine did with every behaviour the statement allows.
-func Judge(r *Router, exps []Expect, o *Observed) verdict {
+func Judge(r *Router, exps []Expect, o, prev *Observed) verdict {
 	var first verdict
 	for i := range exps {
 		e := &exps[i]
 		if e.Undecided != "" {
 			return verdict{OK: true, Undecided: e.Undecided, Exp: e}
 		}
-		a, g, d := mismatch(r, e, o)
+		a, g, d := mismatch(r, e, o, prev)
 		if a == "" {
 			return verdict{OK: true, Exp: e}
 		}
@@ -383,6 +395,76 @@ func locClass(r *Router) string {
 	return "base-args"
 }
 
+// violationKey is the root-cause signature of a disagreement: router type, aspect, which kind of
+// expectation was missed and how, the outcomes of the cases tried, whether localized arguments were in
+// play - and, where they apply, how the contact got its language and that the routing was a revisit.
+func violationKey(r *Router, v verdict, visit int) string {
+	key := fmt.Sprintf("%s:%s:want=%s:got=%s:trace=%s:%s", r.Type, v.Aspect, viaClass(v.Exp.Via), v.Got, traceClass(v.Exp.Trace), locClass(r))
+	if r.LangVia != "" {
+		key += ":language-set-by-" + r.LangVia
+	}
+	if visit > 0 {
+		key += ":revisit"
+	}
+	return key
+}
+
+// checkRevisits judges the second and later routings of a revisited router (the first was judged
+// and matched the expectation first); false when something was reported.
+func checkRevisits(c *mc.Ctx, m *Model, r *Router, first *Expect, obs []*Observed) bool {
+	lastCat := first.Cat
+	for i := 1; i < len(obs); i++ {
+		rv, o, prev := r.visit(i), obs[i], obs[i-1]
+		exps, err := m.Expectations(rv)
+		if err != nil {
+			c.Violation("harness:reference-model", "reference model failed: "+err.Error(), r)
+			return false
+		}
+		if o.HarnessErr != "" {
+			c.Violation("harness:revisit:"+mc.Hash(o.HarnessErr), fmt.Sprintf("routing %d could not be observed: %s\nrouter: %s", i+1, o.HarnessErr, mc.JSON(r)), r)
+			return false
+		}
+		v := Judge(rv, exps, o, prev)
+		if v.Undecided != "" {
+			c.Inc("not_judged:" + v.Undecided)
+			return true
+		}
+		if !v.OK {
+			what := fmt.Sprintf("routing %d of the router in this run (message %q, after %q): %s\nrouter: %s\nallowed: %s\nobserved: %s\nobserved after the previous routing: %s",
+				i+1, rv.Operand.Input, r.visit(i-1).Operand.Input, v.Detail, mc.JSON(r), describe(exps), mc.JSON(o), mc.JSON(prev))
+			c.Violation(violationKey(rv, v, i), what, r)
+			return false
+		}
+		e := v.Exp
+		lastCat = e.Cat
+		c.Inc("revisit_routings_judged")
+		c.Fact("revisit:via:" + viaClass(e.Via))
+		if r.ResultName != "" && e.Cat >= 0 && e.JudgeInput && e.JudgeValue && prev.HasResult {
+			switch {
+			case prev.ResCat != o.ResCat:
+				c.Fact("revisit:category-changed")
+			case prev.ResValue != o.ResValue:
+				c.Fact("revisit:same-category:value-changed")
+			case prev.ResInput != o.ResInput:
+				c.Fact("revisit:same-category-and-value:operand-changed")
+				c.Fact("revisit:same-category-and-value:operand-changed:via:" + viaClass(e.Via))
+				if strings.HasPrefix(e.Via, "case") {
+					c.Fact("revisit:same-category-and-value:operand-changed:" + r.Cases[len(e.Trace)-1].Test)
+				}
+				c.Inc("revisit_routings_saving_an_equal_value_and_category_for_another_operand")
+			default:
+				c.Fact("revisit:nothing-changed")
+			}
+		}
+	}
+	// the router is routed once per message for as long as the run has not failed
+	if want := 1 + len(r.Revisit); len(obs) != want && lastCat >= 0 {
+		c.Violation("harness:revisit-count", fmt.Sprintf("observed %d routings, want %d\nrouter: %s", len(obs), want, mc.JSON(r)), r)
+		return false
+	}
+	return true
+}
+
 // check executes one router, judges it and records everything.
 func check(c *mc.Ctx, m *Model, r *Router, family string) {
 	exps, err := m.Expectations(r)
@@ -390,22 +472,25 @@ func check(c *mc.Ctx, m *Model, r *Router, family string) {
 		c.Violation("harness:reference-model", "reference model failed: "+err.Error(), r)
 		return
 	}
-	o := r.Execute()
+	obs := r.ExecuteVisits()
+	o := obs[0]
 	c.Inc("evaluations")
 	c.Inc("sessions:" + family)
 	if o.HarnessErr != "" {
 		c.Violation("harness:"+family+":"+mc.Hash(o.HarnessErr), "the generated definition was not accepted: "+o.HarnessErr+"\nrouter: "+mc.JSON(r), r)
 		return
 	}
-	v := Judge(r, exps, o)
+	v := Judge(r, exps, o, nil)
 	if v.Undecided != "" {
 		c.Inc("not_judged:" + v.Undecided)
 		return
 	}
 	if !v.OK {
-		key := fmt.Sprintf("%s:%s:want=%s:got=%s:trace=%s:%s", r.Type, v.Aspect, viaClass(v.Exp.Via), v.Got, traceClass(v.Exp.Trace), locClass(r))
 		what := fmt.Sprintf("%s\nrouter: %s\nallowed: %s\nobserved: %s", v.Detail, mc.JSON(r), describe(exps), mc.JSON(o))
-		c.Violation(key, what, r)
+		c.Violation(violationKey(r, v, 0), what, r)
+		return
+	}
+	if len(r.Revisit) > 0 && !checkRevisits(c, m, r, v.Exp, obs) {
 		return
 	}
 	// bookkeeping for the evidence and the vacuity guards
@@ -430,7 +515,7 @@ func check(c *mc.Ctx, m *Model, r *Router, family string) {
 		// a translation with a different number of arguments: record which reading the engine follows
 		distinct := false
 		for i := range exps {
-			if a, _, _ := mismatch(r, &exps[i], o); a != "" {
+			if a, _, _ := mismatch(r, &exps[i], o, nil); a != "" {
 				distinct = true
 			}
 		}
@@ -443,6 +528,16 @@ func check(c *mc.Ctx, m *Model, r *Router, family string) {
 			a := r.Cases[i]
 			if a.Tr != nil && len(a.Tr) == len(a.Args) {
 				c.Fact("localized-arguments-decided:" + k)
+			}
+		}
+	}
+	if r.LangVia != "" {
+		c.Inc("sessions_with_language_set_on_the_way")
+		for i, k := range e.Trace {
+			// a case whose base arguments and translation decide differently: the language in force at the
+			// router shows in the exit
+			if a := r.Cases[i]; a.Tr != nil && len(a.Tr) == len(a.Args) {
+				c.Fact("language-set-by-" + r.LangVia + ":to-" + r.Lang + ":" + waitClass(r) + ":localized-case:" + k)
 			}
 		}
 	}
@@ -465,6 +560,13 @@ func check(c *mc.Ctx, m *Model, r *Router, family string) {
 	if c.WantSample() && len(r.Cases) >= 2 && e.Trace != nil && e.Trace[0] == "error" && strings.HasPrefix(e.Via, "case") {
 		c.Sample(map[string]any{"router": r, "expected": describe(exps), "observed": o})
 	}
+}
+
+func waitClass(r *Router) string {
+	if r.Wait {
+		return "after-wait"
+	}
+	return "same-sprint"
 }
 
 func describe(exps []Expect) string {
@@ -507,6 +609,25 @@ func lists(alpha []Atom, n int, f func([]Atom)) {
 	}
 	rec(0)
 }
+
+// sequences calls f for every sequence of exactly n operands over the alphabet.
+func sequences(alpha []Operand, n int, f func([]Operand)) {
+	cur := make([]Operand, n)
+	var rec func(i int)
+	rec = func(i int) {
+		if i == n {
+			f(append([]Operand{}, cur...))
+			return
+		}
+		for _, a := range alpha {
+			cur[i] = a
+			rec(i + 1)
+		}
+	}
+	rec(0)
+}
+
+var langVias = []string{"action", "child"}
 
 func langsFor(atoms []Atom) []string {
 	for _, a := range atoms {
@@ -593,6 +714,69 @@ func run(c *mc.Ctx) {
 		})
 	}
 
+	// family V (revisits): the router waits for a message and every exit's node leads back to it, so one
+	// run routes it once per message and saves the same result name each time; every routing is judged
+	// like a first one, against the message that caused it. Every sequence of message texts of the given
+	// length over the revisit alphabet (the input texts of the operand alphabet and, for each, a second
+	// text with the same extractable parts) x case list x default x contact language.
+	revisits := func(alpha []Atom, n, visits int, family string) {
+		lists(alpha, n, func(l []Atom) {
+			unit(func() {
+				for _, def := range []bool{true, false} {
+					for _, lang := range langsFor(l) {
+						sequences(RevisitTexts, visits, func(ts []Operand) {
+							r := BuildSwitch(ts[0], l, 0, 0, def, true, 1, lang)
+							for _, t := range ts[1:] {
+								r.Revisit = append(r.Revisit, t.Input)
+							}
+							check(c, m, r, family)
+						})
+					}
+				}
+			})
+		})
+	}
+	// family L (language set on the way): the trigger's contact has the other language, the run sends a
+	// message (localizing it under that language) and only then the contact's language becomes the one the
+	// router must use - set by an action of the same run or by a child run entered before the router, in
+	// the sprint that routes or in the one before the router's wait.
+	languagePaths := func(alpha []Atom, n int, family string) {
+		lists(alpha, n, func(l []Atom) {
+			unit(func() {
+				for _, def := range []bool{true, false} {
+					for _, op := range Operands {
+						for _, lang := range []string{langBase, langTr} {
+							for _, via := range langVias {
+								for _, wm := range []int{0, 1} {
+									r := BuildSwitch(op, l, 0, 0, def, true, wm, lang)
+									r.LangVia = via
+									check(c, m, r, family)
+								}
+							}
+						}
+					}
+				}
+			})
+		})
+	}
+	localized := func(alpha []Atom) (out []Atom) {
+		for _, a := range alpha {
+			if a.Tr != nil {
+				out = append(out, a)
+			}
+		}
+		return
+	}
+	// alphabet of the case lists of length 2 under a language set on the way: the literal atom and the
+	// localized atoms of has_any_word plus the core alphabet
+	var pairs []Atom
+	pairs = append(pairs, core...)
+	for _, a := range full {
+		if a.Test == "has_any_word" && a.Tr != nil {
+			pairs = append(pairs, a)
+		}
+	}
+
 	tests(full, 0, "tests:len0")
 	tests(full, 1, "tests:len1")
 	if c.Quick() {
@@ -600,6 +784,9 @@ func run(c *mc.Ctx) {
 		structure(0)
 		structure(1)
 		structure(2)
+		revisits(reduced, 1, 2, "revisits:len1")
+		languagePaths(localized(append(append([]Atom{}, reduced...), core...)), 1, "language-paths:len1")
+		languagePaths(pairs, 2, "language-paths:len2")
 	} else {
 		tests(full, 2, "tests:len2")
 		tests(triple, 3, "tests:len3")
@@ -607,6 +794,16 @@ func run(c *mc.Ctx) {
 		structure(1)
 		structure(2)
 		structure(3)
+		revisits(full, 1, 2, "revisits:len1")
+		revisits(core, 2, 2, "revisits:len2")
+		revisits(core, 1, 3, "revisits:len1:three-routings")
+		languagePaths(localized(full), 1, "language-paths:len1")
+		for _, a := range full {
+			if a.Test == "has_category" && a.Tr != nil {
+				pairs = append(pairs, a)
+			}
+		}
+		languagePaths(pairs, 2, "language-paths:len2")
 	}
 
 	// random routers
@@ -645,7 +842,7 @@ func run(c *mc.Ctx) {
 		}
 	})
 	if expired {
-		c.Cap("time budget reached: the families are enumerated in a fixed order (tests product by list length, structure product, random, no router) and every unit before the cap was checked completely")
+		c.Cap("time budget reached: the families are enumerated in a fixed order (sub-flow return, tests product by list length, structure product, revisits, language set on the way, random, no router) and every unit before the cap was checked completely")
 	}
 }
 
@@ -660,24 +857,41 @@ func replayFn(c *mc.Ctx, raw json.RawMessage) (string, bool) {
 		return "bad replay: " + err.Error(), false
 	}
 	m := NewModel()
-	exps, err := m.Expectations(&r)
-	if err != nil {
-		return "reference model failed: " + err.Error(), false
-	}
-	o := r.Execute()
 	def, _ := json.Marshal(r.Definition())
-	v := Judge(&r, exps, o)
-	out := fmt.Sprintf("router: %s\ndefinition: %s\nallowed by the statement: %s\nobserved: %s\n", mc.JSON(r), def, describe(exps), mc.JSON(o))
-	if o.HarnessErr != "" {
-		return out + "HARNESS: " + o.HarnessErr, true
+	out := fmt.Sprintf("router: %s\ndefinition: %s\n", mc.JSON(r), def)
+	if r.LangVia == "child" {
+		child, _ := json.Marshal(r.ChildDefinition())
+		out += fmt.Sprintf("child flow: %s\n", child)
 	}
-	if v.Undecided != "" {
-		return out + "not judged: " + v.Undecided, false
+	if r.LangVia != "" {
+		out += fmt.Sprintf("the trigger's contact has language %s; the router is reached with language %s\n", otherLang(r.Lang), r.Lang)
 	}
-	if !v.OK {
-		return out + fmt.Sprintf("PROBLEM %s (%s): %s", v.Aspect, v.Got, v.Detail), true
+	obs := r.ExecuteVisits()
+	var prev *Observed
+	for i, o := range obs {
+		rv := r.visit(i)
+		exps, err := m.Expectations(rv)
+		if err != nil {
+			return out + "reference model failed: " + err.Error(), false
+		}
+		v := Judge(rv, exps, o, prev)
+		if len(r.Revisit) > 0 {
+			out += fmt.Sprintf("routing %d (message %q): ", i+1, rv.Operand.Input)
+		}
+		out += fmt.Sprintf("allowed by the statement: %s\nobserved: %s\n", describe(exps), mc.JSON(o))
+		if o.HarnessErr != "" {
+			return out + "HARNESS: " + o.HarnessErr, true
+		}
+		if v.Undecided != "" {
+			return out + "not judged: " + v.Undecided, false
+		}
+		if !v.OK {
+			return out + fmt.Sprintf("PROBLEM %s (%s): %s", v.Aspect, v.Got, v.Detail), true
+		}
+		out += "agrees with: " + describe([]Expect{*v.Exp}) + "\n"
+		prev = o
 	}
-	return out + "agrees with: " + describe([]Expect{*v.Exp}), false
+	return out, false
 }
 
 func init() {
@@ -688,14 +902,19 @@ func init() {
 			"Enumerated exhaustively: (T) switch routers with every case list of length 0..2 (thorough: ..3) over an alphabet of atoms = registered test (all of cases.XTESTS, read from the registry) x argument vector {literal hit, literal miss, expression form, argument evaluating to an error, one argument too many, localized base-hits/translation-misses, localized base-misses/translation-hits, translation of different length, second literal} " +
 			"(lengths 0..1: all atoms; length 2: quick = the literal atom of every test + all atoms of 6 representative tests, thorough = all atoms; length 3 (thorough): the literal atom of every test + 7 special atoms (miss, erroring argument, wrong count, localized variants) of has_any_word and has_category) x {default, no default} x 13 operands (5 texts arriving as contact input, number, datetime, nil, error, result object, group array, classification result, mixed template) x contact language {base, translated (when a case is localized)}; " +
 			"(S) case lists of length 0..2 (thorough ..3) over 6 core atoms x 13 operands x 4 category assignments (distinct, cases sharing a category, default sharing a case's category, equal names) x 4 exit assignments (identity, reversed, all categories one exit, two categories sharing an exit) x default x result name x {no wait, msg wait + msg resume, wait with timeout + msg resume, wait with timeout + timeout resume} x language; " +
+			"(V) revisits: the router waits for a message and the node behind every exit leads back to it, so one run of one live session routes it once per message and saves the same result name every time; every routing is judged like a first one against the message that caused it (exit, next node, segment and operand, saved category/value/input; run back at the wait): case lists of length 1 over the reduced alphabet of (T) (thorough: all atoms, and length 2 over the 6 core atoms) x {default, no default} x contact language x every ordered pair (thorough also: every triple, over the core atoms) of 9 message texts = the 5 input texts of the operand alphabet + for each non-empty one a second text carrying the same extractable parts (words, number, phone, email, date with time, places) in another whole text, so that equal match and category are saved for a different operand; " +
+			"(L) language set on the way: the trigger's contact has the other language, the run first sends a message (localizing it under that language), then the contact's language becomes the one the router must use - set by {a set_contact_language action of the same run, a child run entered by a node before the router} - and the router is reached {in the same sprint, after its own msg wait, resumed on the live session}: case lists of length 1 over every localized atom of the reduced alphabet and the core (thorough: of all atoms) and of length 2 over 9 atoms (core + the localized atoms of has_any_word; thorough 12: + those of has_category) x {default, no default} x 13 operands x final language {base, translated}; " +
 			"(R) random routers with 2..4 categories x boundary draws {0, largest float64 below k/n, smallest float64 >= k/n, the same on the 2^-53 grid, 1-2^-53} (thorough: + bucket middles) x exit assignments x result name; (N) nodes without router with 1..2 exits x each exit with/without destination (0 exits: definition rejected). " +
-			"Every (router, operand, language, resume) is distinct by construction; distinct_nontrivial counts the sessions in which the decision list did real work (some case matched or errored) plus all timeout, random and router-less sessions.",
+			"(SUB, driven through verif/world) a parent that enters a child flow and splits on @child.status x child wait with/without timeout x child looping x result name x resume {msg hit, msg miss, timeout, expire}. " +
+			"Every (router, operand, language, resume, message sequence, language path) is distinct by construction; distinct_nontrivial counts the sessions in which the decision list did real work (some case matched or errored) plus all timeout, random and router-less sessions.",
 		Assumptions: []string{
 			"the evaluator, the type conversions and the registered test functions are the substrate shared by engine and reference model (their own correctness is the subject of other properties); the reference obtains its evaluation context from a separate session over a flow with the same actions and no router",
 			"the statement does not say which arguments are compared when a translation has a different number of arguments than the base: both readings are accepted (the evidence records which one the engine follows)",
 			"the statement does not define the text of an operand that evaluates to an error: for such operands exit, category and the match of has_error are judged, the stored operand text is not",
 			"for timeout and random routes the statement defines the category only: result value and input are not judged there",
-			"small-scope: at most 3 cases per router, the operand and argument alphabets listed in the rule",
+			"a routing that saves the value and category the result already has: the statement does not say whether an event announces it, so no event or one agreeing event is accepted there; the saved result itself (category, value, input) is judged in full on every routing",
+			"revisits and language paths keep the reference's evaluation context (a probe session with the final contact language and the message of the routing judged): no operand or argument of the alphabets reads what an earlier routing or the language change alters (the router's own result, @child, @contact.language); the revisit texts carry a time of day with their date because a date without one takes it from the clock, which the reference reads at another moment",
+			"small-scope: at most 3 cases per router, at most 3 routings of a router in one run, the operand, argument and message alphabets listed in the rule",
 			"clock, UUID and random sources are owned by the harness; a random draw is forced by fixing the source's Int63 value (rand.Float64 = float64(Int63)/2^63)",
 		},
 		Run:    run,
@@ -744,6 +963,19 @@ func guards(r *mc.Result, tier string) []string {
 	need("none:exits=0:definition-rejected")
 	if r.Facts["translation-of-different-length:engine-used-base-arguments"]+r.Facts["translation-of-different-length:engine-used-translation-arguments"] == 0 {
 		f = append(f, "a translation of different length never made a difference")
+	}
+	for _, k := range []string{"revisit:via:case", "revisit:via:default", "revisit:via:none", "revisit:category-changed", "revisit:same-category:value-changed",
+		"revisit:same-category-and-value:operand-changed:via:case", "revisit:nothing-changed"} {
+		need(k)
+	}
+	for _, via := range langVias {
+		for _, lang := range []string{langBase, langTr} {
+			for _, w := range []string{"same-sprint", "after-wait"} {
+				for _, k := range []string{"match", "nomatch"} {
+					need("language-set-by-" + via + ":to-" + lang + ":" + w + ":localized-case:" + k)
+				}
+			}
+		}
 	}
 	if r.Counters["result_values_judged"] == 0 {
 		f = append(f, "no result value was judged")
